@@ -93,6 +93,10 @@ def make_domain(name):
         return D.Circle(X, [0.5, 0.5], 0.5) - D.Circle(X, [0.5, 0.5], 0.2)
     if name == "bsquare":
         return D.Parallelogram(X, [0, 0], [1, 0], [0, 1]).boundary
+    if name == "pdisc":
+        # a shape function of TWO outer variables: users fix one of them per condition (dom(a=...)) and let the
+        # product sampler supply the other
+        return D.Circle(X, [0.5, 0.5], lambda t, a: 0.2 + 0.1 * t + 0.15 * a)
     raise ValueError(name)
 
 
@@ -101,6 +105,8 @@ def make_sampler(spec, shared_domains=None):
     S = tp.samplers
     sx = spec["x"]
     dom = (shared_domains or {}).get(sx["dom"]) or make_domain(sx["dom"])
+    if sx["dom"] == "pdisc":
+        dom = dom(a=float(sx.get("a", 0.0)))       # partial evaluation of the (possibly shared) domain
     cls = {"random": S.RandomUniformSampler, "grid": S.GridSampler, "lhs": S.LHSSampler}[sx["kind"]]
     s = cls(dom, n_points=sx["n"])
     if spec.get("t"):
@@ -488,7 +494,7 @@ def run_c14(case):
                     shared["data_dict"] = {k_: UserFunction(v_) for k_, v_ in shared["data_dict"].items()}
                 behaviour_before = behaviour(shared["data_dict"])
             if sharing.get("domains"):
-                shared["domains"] = {n: make_domain(n) for n in ("square", "disc", "ring", "bsquare")}
+                shared["domains"] = {n: make_domain(n) for n in ("square", "disc", "ring", "bsquare", "pdisc")}
             user_dict_before = dict(shared["data_dict"]) if "data_dict" in shared else None
             builds = {}
             solo = {}
